@@ -405,6 +405,15 @@ func TestCheck(t *testing.T) {
 								c.Report(dev, base)
 								continue
 							}
+							if fn != "HashFile" && dc[avfs.FnFileSync] == 0 {
+								// the statement lists syncing among the steps whose failure is reported: a copy
+								// that succeeds without ever syncing its destination (the plans below are those
+								// the clean run invokes) has a sync failure it can never report
+								d := vt.Dev("prop", "C16", "func", fn, "src", src, "dst", dst, "clause", "never-synced", "hasher", map[bool]string{true: "none", false: "given"}[hs == "nil"])
+								d.Detail = fmt.Sprintf("%+v: the copy returned nil and the destination handle was never synced", base)
+								c.Report(d, base)
+								continue
+							}
 							// every single-fault plan on either side
 							for _, side := range []string{"src", "dst"} {
 								counts := sc
